@@ -22,3 +22,4 @@ INVARIANT InvScope
 INVARIANT InvIdempotent
 INVARIANT InvRefGlobal
 INVARIANT InvCyclicDef
+INVARIANT InvRefPerGraph
